@@ -31,7 +31,7 @@ class S:
     perturb = False
     pseed = 0
     jitter_us = 200
-    barrier_ms = 200
+    barrier_ms = 1500       # cap only; the barrier opens as soon as every expected worker has arrived
     parent_delay_us = 0
     fault = None            # dict(kind='raise'|'kill'|'kill_before'|'raise_parent', at=k, flag=path)
     held = []               # ids of traced locks held by this process
@@ -406,7 +406,7 @@ def install():
     S.installed = True
 
 
-def begin_run(logpath, pseed=0, perturb=True, fault=None, parent_delay_us=0, jitter_us=200, barrier_ms=200):
+def begin_run(logpath, pseed=0, perturb=True, fault=None, parent_delay_us=0, jitter_us=200, barrier_ms=1500):
     install()
     S.parent = os.getpid()
     S.fd = os.open(logpath, os.O_WRONLY | os.O_CREAT | os.O_TRUNC | os.O_APPEND, 0o600)
